@@ -17,7 +17,7 @@ from mc.kernel import exc_sig
 PROPERTY = "C08"
 RULE = "unit = one underdetermined system; paths = fit_underdetermined calls per (target, option, tolerance); non-trivial = targets whose solution polytope has positive dimension; distinct by (system, target, option, tolerance)"
 ASSUMPTIONS = ["optimality is asserted one-sidedly against the optimum over the UNRELAXED solution polytope (the fit may use its tolerance l2_eps, so it can only do better)",
-               "objective tolerance: 1e-3 x (1 + |optimum|) + effect of l2_eps; reproduction tolerance l2_eps + 1e-4"]
+               "objective tolerance: 1e-3 x (1 + |optimum|) + effect of l2_eps; reproduction tolerance 1.5 x l2_eps + 2e-7"]
 BOUNDS = {"quick": "shapes 2x3 2x4 3x4 3x5 4x5 4x6 x 2-3 matrices; bounds x K x baseline <= 1 deviation (2 for the 'asc' matrix); 4 targets x 9 options (l2_eps = 1e-4) + tolerance menu on one target",
           "thorough": "all 2-4 x 1-3 surplus, <= 2 deviations, 8 targets"}
 CAP_S = {"quick": 600, "thorough": 7200}
@@ -121,7 +121,7 @@ def run_unit(unit, rec):
                     bad = ("a", "returned intensities violate the bounds")
                 elif np.max(np.abs(np.asarray(Bp)[0] - (Abar @ x + c0))) > 1e-9 * (1 + ext):
                     bad = ("b", "returned prediction is not the model's capture of the returned intensities")
-                elif resid > eps + 1e-4:
+                elif resid > 1.5 * eps + 2e-7:
                     bad = ("b", "target not reproduced within the requested tolerance (residual %.3g, l2_eps %.0e)" % (resid, eps))
                 else:
                     # a residual r allows the objective to improve by at most L * r / sigma_min-ish; allow a generous first-order term
